@@ -41,7 +41,7 @@ META = {
     "srepr/lambdify), the generic instance factory.",
     "design_ref": "DESIGN.md §4 C14",
 }
-ACTIONS = ["Xreplace", "Subs", "DoitA", "RebuildA", "PickleA", "VaryArg", "VaryAttr"]
+ACTIONS = ["Xreplace", "Subs", "DoitA", "RebuildA", "PickleA", "VaryArg", "VaryAttr"]  # SubsMap: checked on the mixed-map run
 
 
 def discover(chk, with_fixtures=False):
@@ -90,12 +90,17 @@ def run(chk, replay=None):
     legacy_note(chk)
     # 1. the laws, exhaustively ---------------------------------------------------------------------------
     leafs = ("x", "y", "z") if tier == "thorough" else ("x", "y")
-    with ThreadPoolExecutor(max_workers=4) as ex:
-        f_main = ex.submit(run_tlc, "ExprOps_MC", X.class_cfg(sigs, leafs=leafs, max_ops=1), workers=3, fast_start=False, timeout=1700)
+    with ThreadPoolExecutor(max_workers=6) as ex:
+        f_main = ex.submit(run_tlc, "ExprOps_MC", X.class_cfg(sigs, leafs=leafs, max_ops=1), workers=2, fast_start=False, timeout=1700)
         f_cov = ex.submit(run_tlc, "ExprOps_MC", X.class_cfg(sigs, init="ClassInitD1", leafs=("x", "y"), full_quantification=True), workers=1, coverage=True, timeout=600)
         f_dev = ex.submit(run_tlc, "ExprOps_MC", X.class_cfg(sigs, dev="DevDeepAstuple", leafs=("x", "y"), outer=["A21e"], inner=["B10e"]), workers=1, timeout=600)
+        f_mix = ex.submit(run_tlc, "ExprOps_MC", X.class_cfg(sigs, init="MixInit", mixed=True, leafs=("x", "y"),
+                                                             full_quantification=(tier == "thorough")), workers=1, coverage=True, timeout=1700)
+        f_mixdev = ex.submit(run_tlc, "ExprOps_MC", X.class_cfg(sigs, init="MixInit", mixed=True, leafs=("x", "y"), dev="DevBoundIndexSubs"),
+                             workers=1, timeout=600)
         f_two = ex.submit(run_tlc, "ExprOps_MC", X.class_cfg(sigs, init="ClassInitD1", leafs=("x", "y"), max_ops=2), workers=1, timeout=1700) if tier == "thorough" else None
         res, cov, dev = f_main.result(), f_cov.result(), f_dev.result()
+        mix, mixdev = f_mix.result(), f_mixdev.result()
         two = f_two.result() if f_two else None
     chk.add_tlc("laws_exhaustive", res)
     if two is not None:
@@ -103,6 +108,15 @@ def run(chk, replay=None):
     for r in (res, two):
         if r is not None and not r.ok:
             raise Machinery(f"the specification violates its own laws ({r.violated}): specification error\n" + "\n".join(r.error_trace[:60]))
+    chk.add_tlc("laws_mixed_maps", mix)
+    mtot = action_totals(mix)
+    if not mix.ok:
+        raise Machinery(f"the specification violates its own laws on the mixed-map universe ({mix.violated})\n" + "\n".join(mix.error_trace[:60]))
+    if mtot.get("Xreplace", 0) == 0 or mtot.get("SubsMap", 0) == 0 or mixdev.ok:
+        raise Machinery(f"vacuous / insensitive mixed-map model check: {mtot}, BoundIndexSubs deviation violates: {mixdev.violated}")
+    chk.part("laws_mixed_maps", transitions_per_action=mtot, deviation_BoundIndexSubs_violates=mixdev.violated,
+             universe="PoolSum over f(x,i) and over every class slot; PoolSum nested in every class slot; shadowed index; maps "
+             "{i -> value, free symbol -> term} in both key orders, xreplace and subs(dict); laws SubstEvalFreePart, BoundKeysIrrelevant")
     totals = action_totals(cov)
     dead = [a for a in ACTIONS if totals.get(a, 0) == 0]
     if dead or not cov.ok:
@@ -129,6 +143,14 @@ def run(chk, replay=None):
              helper_objects_whose_derived_part_differs_from_direct_construction=getattr(rep, "derived_part_differs", 0),
              neighbour_pairs=rep.eq_pairs, pickle_round_trips_in_process=rep.pickled, tlc_simulate_s=round(t_sim, 1),
              wall_s=round(time.time() - t0, 1), **info)
+    # 2b. maps that contain a summation index and a free symbol (PoolSum as outer class / nested argument)
+    t1 = time.time()
+    mbehs = X.simulate_mixed(sigs, num=500 if tier == "thorough" else 90, depth=5, seed=chk.seed + 9)
+    minfo = X.run_mixed_replays(rep, embs, mbehs, rng, budget_s=150 if tier == "thorough" else 9, limit_s=10 if tier == "thorough" else 4)
+    chk.part("mixed_map_replay", behaviours_generated=len(mbehs), wall_s=round(time.time() - t1, 1), **minfo)
+    chk.cov["traces_validated_against_impl"] += minfo["behaviours_replayed"]
+    if minfo["xreplace_and_subs_dict_steps"] == 0:
+        raise Machinery("no mixed-map step was replayed")
     missing = sorted({e.name for e in embs} - rep.covered_outer)
     if missing:
         chk.note(f"classes never replayed as outer class: {missing}")
@@ -138,13 +160,15 @@ def run(chk, replay=None):
 
     # 3. code -> specification: every class, judged by Trace_Expr --------------------------------------------------
     recs, ctx, samples = X.class_trace_records(embs, rng, nest_samples=len(X.all_triples(embs)) if tier == "thorough" else 450)
+    mrecs, mctx = X.mixed_trace_records(embs, rng, start_id=max(r["id"] for r in recs) + 1)
+    recs, ctx = recs + mrecs, {**ctx, **mctx}
     errors = [r for r in recs if r["op"] == "error"]
     good = [r for r in recs if r["op"] != "error"]
     tv = trace.validate("Trace_Expr", good, cfg=TRACE_CFG, timeout=2400)
     chk.add_tlc("trace_all_classes", tv.res, traces=len({ctx[r["id"]]["cls"] for r in good}))
     chk.count(len(good))
     chk.part("trace_all_classes", records=len(good), rejects=len(tv.rejects), stats=tv.stats,
-             classes=len({ctx[r["id"]]["cls"] for r in good}), operations_raised=len(errors))
+             classes=len({ctx[r["id"]]["cls"] for r in good}), operations_raised=len(errors), mixed_map_records=len(mrecs))
     for s in samples:
         chk.sample(s)
     for need in ("subst_changed", "subst_nested", "identity_nested", "eq_equal", "eq_differ_in_attr_only"):
